@@ -66,9 +66,12 @@ PROPS = {
     "C09": {"runs": lambda tier: [run("locale", ops=["loc_meta", "li_meta", "ext_meta"], features=["likely"])], "rule": LOCALE_RULE},
     "C10": {"runs": lambda tier: [run("locale", ops=["loc_hist", "loc_conv"], features=["likely"])], "rule": LOCALE_RULE},
     "C11": {"runs": lambda tier: [run("langid", ops=["li_matches", "lang_matches"]), run("locale", ops=["loc_matches"], features=["likely"])], "rule": LOCALE_RULE},
-    "C12": {"runs": lambda tier: [run("langid", ops=["li_cmp", "li_eq_str", "li_routes"], features=["likely"]), run("locale", ops=["loc_cmp"], features=["likely"])],
+    "C12": {"runs": lambda tier: [run("langid", ops=["li_cmp", "li_eq_str", "li_routes"], features=["likely"]), run("locale", ops=["loc_cmp"], features=["likely"]),
+                                  dict(run("subtags", ops=["lang", "script", "region", "variant"]), only_impl_prefix=["INCONSISTENT =="])],
             "rule": LOCALE_RULE + " || " + LANGID_RULE + " || li_routes: the same logical value built along seven routes (parse, from_parts, field assignment from default(), re-parse of to_string, "
-                    "overwriting every field of another identifier with reversed+duplicated variants, language.clear()+reassign, set_variants(&[])+set) compared pairwise with ==, cmp, hash, to_string, Debug"},
+                    "overwriting every field of another identifier with reversed+duplicated variants, language.clear()+reassign, set_variants(&[])+set) compared pairwise with ==, cmp, hash, to_string, Debug"
+                    " || suite `subtags` (the C15 inputs): only its `== &str` law counts here - true for the canonical text, false for every near miss (one character more / fewer / different, "
+                    "re-cased, a separator or a further subtag appended, non-ASCII look-alikes)"},
     "C13": {"runs": lambda tier: [run("locale", ops=["both", "loc_conv", "loc_prefix"], features=["likely"])], "rule": LOCALE_RULE},
     "C20": {
         "runs": lambda tier: [dict(run("c20", features=f), digest=True) for f in
